@@ -23,7 +23,7 @@ KINDS = ["at", "range", "field", "slice", "carry", "num", "flatten", "localindex
 # the layout helpers of particular node classes that the Python layer calls (ak.to_regular / from_regular, broadcasting,
 # mask conversions); a node of another class answers with an ordinary error
 HELPERS = ["toRegularArray", "toListOffsetArray64", "broadcast_tooffsets64", "project", "bytemask", "to_other_option",
-           "contiguous_or_astuple", "compact_offsets64"]
+           "contiguous_or_astuple", "compact_offsets64", "setitem_field"]
 
 
 def int64_spec(vals):
@@ -196,12 +196,14 @@ def gen_op(r, info, nslots, enabled=None):
         fitting = {"listoffset": HELPERS[0:3] + HELPERS[7:8], "list": HELPERS[0:3] + HELPERS[7:8],
                    "regular": HELPERS[0:3] + HELPERS[7:8], "indexed": HELPERS[3:5], "bytemasked": HELPERS[3:6],
                    "bitmasked": HELPERS[3:6], "unmasked": HELPERS[3:6], "numpy": [HELPERS[0], HELPERS[6]],
-                   "record": [HELPERS[6]]}.get(info.get("top"))
+                   "record": [HELPERS[6], HELPERS[8], HELPERS[8]]}.get(info.get("top"))
         if fitting and r.random() < 0.8:
             what = r.choice(fitting)       # mostly a helper the operand's node class has
         op = {"op": "helper", "what": what, "flag": r.random() < 0.5}
-        if what == "broadcast_tooffsets64":
+        if what in ("broadcast_tooffsets64", "setitem_field"):
             op["other"] = r.randrange(nslots)
+        if what == "setitem_field":
+            op["key"] = r.choice(list(keys) + ["n w", "x"])
         return op
     if k == "copy":
         return {"op": r.choice(["deep_copy", "shallow_copy", "getitem_nothing", "with_identities"]),
@@ -343,7 +345,7 @@ def apply(node, op, a, slot_handle, tmp, before=None):
         return node.op(30, a)
     if k == "helper":
         return node.op(31, a, slot_handle(op["other"]) if "other" in op else 0,
-                       iargs=[HELPERS.index(op["what"]), 1 if op["flag"] else 0])
+                       iargs=[HELPERS.index(op["what"]), 1 if op["flag"] else 0], sarg=op.get("key", ""))
     if k == "getitem_nothing":
         return node.op(24, a)
     if k == "numbers_to_type":
